@@ -10,6 +10,7 @@ python3 tools/gen_astspec.py
 cp /repo/Cargo.lock replay/Cargo.lock
 ( cd replay && CARGO_TARGET_DIR=../build/replay-target cargo build --offline --quiet )
 if [ -f kani/Cargo.toml ]; then
-  cp /repo/Cargo.lock kani/Cargo.lock
+  # warm the Kani build of the harness crate (cheap: the crate has no dependencies)
+  ( cd kani && CARGO_TARGET_DIR=../build/kani-target cargo kani --harness scope_order_complete > /dev/null 2>&1 || true )
 fi
 echo setup done
